@@ -1119,6 +1119,27 @@ def _mod(a, b):
     return _np.mod(a, b)
 
 
+def _fmod(a, b):
+    """C fmod: a - b*trunc(a/b) (the result carries the sign of a); concrete non-zero divisor only"""
+    if is_sym(b):
+        raise Unsupported("fmod by a symbolic divisor")
+    if is_sym(a):
+        bb = abs(float(b))
+        if bb == 0 or not math.isfinite(bb):
+            raise Unsupported("fmod by %r" % (b,))
+        za = _z(a)
+        zb = z3.RealVal(fractions.Fraction(bb))
+        q = z3.If(za >= 0, z3.ToReal(z3.ToInt(za / zb)), -z3.ToReal(z3.ToInt(-za / zb)))
+        return SymNum(za - zb * q)
+    return _np.fmod(a, b)
+
+
+def _trunc(a):
+    if isinstance(a, SymNum):
+        return SymNum(z3.If(a.e >= 0, z3.ToReal(z3.ToInt(a.e)), -z3.ToReal(z3.ToInt(-a.e))), isint=True)
+    return _np.trunc(a)
+
+
 def _sign(a):
     if isinstance(a, SymNum):
         return SymNum(z3.If(a.e > 0, z3.RealVal(1), z3.If(a.e < 0, z3.RealVal(-1), z3.RealVal(0))), isint=True)
@@ -1196,7 +1217,7 @@ _UF = {
     'logical_and': _land, 'logical_or': _lor, 'logical_not': _lnot, 'logical_xor': _lxor,
     'bitwise_and': _land, 'bitwise_or': _lor, 'invert': _lnot, 'bitwise_xor': _lxor,
     'maximum': _max2, 'minimum': _min2, 'fmax': _max2, 'fmin': _min2,
-    'floor': _floor, 'ceil': _ceil, 'remainder': _mod, 'mod': _mod, 'sign': _sign,
+    'floor': _floor, 'ceil': _ceil, 'remainder': _mod, 'mod': _mod, 'fmod': _fmod, 'trunc': _trunc, 'sign': _sign,
     'log2': _tr('log2'), 'log': _tr('log'), 'log10': _tr('log10'), 'exp': _tr('exp'), 'sqrt': _tr('sqrt'),
     'isnan': _isnan, 'isfinite': _isfinite, 'isinf': _isinf, 'square': _square, 'power': _power,
     'rint': _rint,
